@@ -152,6 +152,9 @@ type element struct {
 	// attrSplit reports the same for the name of an attribute seen so far in the current tag:
 	// the attributes of the tag are not the ones a browser sees.
 	attrSplit bool
+	// inherited reports, during the analysis of a called template, that the element is
+	// still the one the call site is in, not one whose tag the template has opened itself.
+	inherited bool
 }
 
 // eq reports whether a and b have the same name. All other fields are ignored.
